@@ -1,4 +1,5 @@
 import D2P.Props.C02
+import D2P.Proofs.Elems
 /-!
 # C10 — hyperlinks and note references are rendered as matchable, exact markers
 
@@ -71,7 +72,10 @@ theorem C10_note_label (s s' : DC) (x : Xml) (kind : String) (id : Str)
     s'.queued = s.queued ++ [{ style := [], text := lit kind ++ id ++ lit ")\t" }] := by
   unfold noteLabel at h
   simp only [hsep, ok_bind, Bool.false_eq_true, if_false, hid] at h
-  have := pure_ok h; subst this; rfl
+  obtain ⟨s0, h0, h⟩ := bind_ok h
+  have := pure_ok h; subst this
+  show s0.queued ++ _ = _
+  rw [(flushImplicit_keeps s s0 _ h0).1]
 
 /-- … and by `C02_paragraph` the first paragraph of the note starts with that label. -/
 theorem C10_label_prefixes_paragraph (cfg : PartCfg) (num : Dict Str (List NumAttr)) (c : Bool) (s s' : DC) (x : Xml)
@@ -91,5 +95,37 @@ theorem C10_label_prefixes_paragraph (cfg : PartCfg) (num : Dict Str (List NumAt
     rw [← e, List.append_assoc]
   | comment _ _ => simp [flatPar] at hx
   | pi _ => simp [flatPar] at hx
+
+/-- after the flush of an element that has a depth — and after a note label — no implicit paragraph is pending -/
+theorem flushImplicit_noImpl_of_sole (s s0 : DC) (d : Nat) (hs : Sole (elems s)) (h : s.flushImplicit (some d) = .ok s0) :
+    NoImpl s0 := by
+  have ha := (flushImplicit_sole s s0 _ hs h).2 rfl
+  intro p hp
+  have hmem : p.elem ∈ elems s0 := List.mem_map.2 ⟨p, List.mem_of_getLast? hp, rfl⟩
+  have := ha _ hmem
+  cases he : p.elem with
+  | none => rw [he] at this; cases this
+  | some _ => rfl
+
+/-- **C10: a note's label opens the note's first paragraph, whatever came before.** In any state the
+walk reaches (`Sole`) with nothing queued — in particular with inline content of the PREVIOUS note still
+pending in an implicit paragraph — a non-separator note queues its label after concluding that
+paragraph, and the note's first paragraph (one that encloses no other) starts with exactly this
+label. (Before the repair of `queue_run_for_next_paragraph` the pending paragraph swallowed the next
+note's text and was lost when the part ended.) -/
+theorem C10_note_first_paragraph (cfg : PartCfg) (num : Dict Str (List NumAttr)) (c : Bool) (s s1 s' : DC) (x y : Xml)
+    (kind : String) (id : Str) (hs : Sole (elems s)) (hq : s.queued = [])
+    (hsep : isSeparatorNote x = .ok false) (hid : x.attrReq (lit "w") (lit "id") = .ok id)
+    (h1 : noteLabel s x kind = .ok s1) (hy : flatPar y = true) (h2 : walk cfg num c s1 y = .ok s') :
+    ∃ par rest, leafParsL s'.root = leafParsL s1.root ++ [par] ∧ parText par = (lit kind ++ id ++ lit ")\t") ++ rest := by
+  have hq1 := C10_note_label s s1 x kind id hsep hid h1
+  rw [hq, List.nil_append] at hq1
+  have hni : NoImpl s1 := by
+    unfold noteLabel at h1
+    simp only [hsep, ok_bind, Bool.false_eq_true, if_false, hid] at h1
+    obtain ⟨s0, h0, h1⟩ := bind_ok h1
+    have := pure_ok h1; subst this
+    exact NoImpl_of_openPars (s := s0) rfl (flushImplicit_noImpl_of_sole s s0 4 hs h0)
+  exact C10_label_prefixes_paragraph cfg num c s1 s' y _ hq1 hy hni h2
 
 end D2P
